@@ -19,8 +19,12 @@ from harness.lib.common import ExtractError, exc_enum, hexs  # noqa: F401
 PID = 'C01'
 LEAN_TARGETS = ['CfVerif.Props.C01']
 PROPS_MODULES = ['CfVerif.Props.C01']
+EXTRA_MODULES = ['CfVerif.Spec.C01', 'CfVerif.Proofs.C01', 'CfVerif.Proofs.C01Bits', 'CfVerif.Proofs.C01Sys', 'CfVerif.Proofs.C01Thm']
 DRIVER = 'Driver/C01.lean'
-REQUIRED_THEOREMS = ['CfVerif.C01.needs_resending_eq', 'CfVerif.C01.model_side_conditions']
+REQUIRED_THEOREMS = ['CfVerif.C01.' + t for t in (
+    'uplink_exactly_once_in_order', 'downlink_exactly_once_in_order', 'link_error_iff', 'safelink_only_if_confirmed',
+    'safelink_confirmed_by_peer', 'needs_resending_eq', 'acked_iff_ok', 'ack_status_decoding', 'model_side_conditions',
+    'gen_safelink_handshake')]
 TRUSTED = ['harness/corr/c01.py extractor + correspondence harness (fake radio / fake USB device, Python twin of the peer)',
            'queue.Queue(1) is a one-slot FIFO hand-off; a blocked put completes when the slot is freed',
            '_SharedRadio/_SharedRadioInstance/RadioManager forward send_packet unchanged (exercised by L2, not modelled)']
